@@ -15,7 +15,10 @@ def sh(cmd, cwd=None, timeout=900):
     p = subprocess.run(cmd, shell=True, cwd=cwd, env=ENV, stdout=subprocess.PIPE, stderr=subprocess.STDOUT, text=True, timeout=timeout)
     return p.returncode, p.stdout
 sh(f"git -C /repo worktree remove --force {wt}; rm -rf {wt}")
-rc, out = sh(f"git -C /repo worktree add --detach {wt} HEAD")
+# SEED_BASE: confirm the delivery on the commit it was made for (a later repair in /repo can change what
+# the demonstration relies on); the checks are always run against HEAD + patch
+base = os.environ.get("SEED_BASE", "HEAD")
+rc, out = sh(f"git -C /repo worktree add --detach {wt} {base}")
 assert rc == 0, out
 demo = open(os.path.join(src, "demo_test.go")).read()
 head = "\n".join(demo.split("\n")[:12])
@@ -28,7 +31,7 @@ m = re.search(r"(go test[^\n]*)", head)
 cmd = m.group(1).strip() if m else f"go test -vet=off -count=1 -run . ./{os.path.dirname(dest)}/"
 cmd = re.sub(r"cd\s+\S+\s*&&\s*", "", cmd)
 cmd = re.split(r"\s{2,}\(|\s+#|\s+//", cmd)[0].strip()
-res = {"property": pid, "seed_id": sid, "demo_location": dest, "demo_command": cmd}
+res = {"property": pid, "seed_id": sid, "demo_location": dest, "demo_command": cmd, "confirmed_on": base}
 shutil.copyfile(os.path.join(src, "demo_test.go"), os.path.join(wt, dest))
 rc, out = sh(cmd, cwd=wt)
 res["demo_without_patch"] = "pass" if rc == 0 else "FAIL"
